@@ -13,6 +13,8 @@ import (
 
 	jerr "github.com/jsightapi/jsight-schema-go-library/errors"
 	"github.com/jsightapi/jsight-schema-go-library/fs"
+	"github.com/jsightapi/jsight-schema-go-library/kit"
+	"github.com/jsightapi/jsight-schema-go-library/notations/jschema"
 )
 
 type c17Case struct {
@@ -43,7 +45,9 @@ type rendered struct {
 
 // renderAt renders an error at pos of content. moved: the error value was first rendered against another, longer file with other
 // line ends and then pointed at this one (SetFile / SetIndex) - the result is a function of the final file and position only.
-func renderAt(content []byte, pos int, moved bool) (r rendered) { return renderAtM(content, pos, moved, false) }
+func renderAt(content []byte, pos int, moved bool) (r rendered) {
+	return renderAtM(content, pos, moved, false)
+}
 
 // again: the same error value was rendered at another position of the same file before (SetIndex only).
 func renderAtM(content []byte, pos int, moved, again bool) (r rendered) {
@@ -260,6 +264,43 @@ func init() {
 		})
 		b, _ := json.Marshal(map[string]int64{"located_violations": n, "mismatches": mism, "schemas_rejected": rejected})
 		fmt.Fprintln(os.Stderr, "@@SUMMARY "+string(b))
+		return 0
+	})
+}
+
+// c17conv: the error of a type that does not load, as AddType returns it and as kit.ConvertError presents it, names the file, the
+// position and the code that the type's own Check reports - for every cut-off prefix of a few type texts.
+func init() {
+	register("c17conv", func(args []string) int {
+		fs0 := flag.NewFlagSet("c17conv", flag.ExitOnError)
+		out := fs0.String("out", "-", "mismatch ndjson")
+		fs0.Parse(args)
+		w := newNDWriter(*out)
+		defer w.Close()
+		n, mism := 0, 0
+		texts := []string{"{\n  \"id\": 1, // {min: 0} - the id\n  \"ok\": true,\n  \"list\": [\n    1, 2\n  ]\n}", "[\n  @t | @u, // {optional: false}\n  \"x\"\n]",
+			"\"abc\" /* {enum: [\n  \"abc\", // c\n  \"d\"\n]} */", "{\n  @k: 1 // {or: [{type: \"integer\", min: 1}, \"string\"]}\n}"}
+		for _, full := range texts {
+			for k := 0; k <= len(full); k++ {
+				text := full[:k]
+				own, isDoc := jschema.New("@t", text).Check().(jerr.DocumentError)
+				root := fs.NewFile("root", `{"a": @t}`)
+				r := jschema.FromFile(root)
+				e := r.AddType("@t", jschema.New("@t", text))
+				if e == nil || !isDoc {
+					continue
+				}
+				n++
+				ce := kit.ConvertError(root, e)
+				if ce.Filename() != own.Filename() || ce.Position() != own.Position() || ce.ErrCode() != own.ErrCode() {
+					mism++
+					w.Write(map[string]interface{}{"content": bytesToInts([]byte(text)), "what": "converted AddType error",
+						"want": fmt.Sprintf("file %q position %d code %d", own.Filename(), own.Position(), own.ErrCode()),
+						"got":  fmt.Sprintf("file %q position %d code %d", ce.Filename(), ce.Position(), ce.ErrCode())})
+				}
+			}
+		}
+		fmt.Fprintf(os.Stderr, "@@SUMMARY {\"converted\": %d, \"mismatches\": %d}\n", n, mism)
 		return 0
 	})
 }
